@@ -334,21 +334,21 @@ func runC07(t *testing.T, tier string) int {
 	}
 	distinct := len(outcomes)
 	cov := map[string]any{
-		"evaluations":          evals + laws*int64(2*len(maps)) + int64(e2e["publishes"]),
-		"distinct_nontrivial":  distinct,
-		"rule":                 "every filter AST of the stated shapes over the vocabulary, rendered in up to 3 surface styles, parsed by filter.Parser and evaluated on every attribute map over the vocabulary; non-trivial/distinct = number of distinct reference truth tables (over all maps) among the enumerated filters",
-		"samples":              samples,
-		"filters":              filters,
-		"attribute_maps":       len(maps),
-		"laws_checked":         laws,
+		"evaluations":                     evals + laws*int64(2*len(maps)) + int64(e2e["publishes"]),
+		"distinct_nontrivial":             distinct,
+		"rule":                            "every filter AST of the stated shapes over the vocabulary, rendered in up to 3 surface styles, parsed by filter.Parser and evaluated on every attribute map over the vocabulary; non-trivial/distinct = number of distinct reference truth tables (over all maps) among the enumerated filters",
+		"samples":                         samples,
+		"filters":                         filters,
+		"attribute_maps":                  len(maps),
+		"laws_checked":                    laws,
 		"filters_touching_dont_care_cell": dontCares,
-		"end_to_end":           e2e,
-		"exhaustive":           true,
-		"names":                names,
-		"values":               values,
-		"states":               int(filters),
-		"transitions":          int(evals),
-		"traces_validated_against_impl": int(filters),
+		"end_to_end":                      e2e,
+		"exhaustive":                      true,
+		"names":                           names,
+		"values":                          values,
+		"states":                          int(filters),
+		"transitions":                     int(evals),
+		"traces_validated_against_impl":   int(filters),
 	}
 	ev := report.Evidence{PropertyID: "C07", Tier: tier, Seed: report.Seed(), Level: "exploration", Coverage: cov,
 		Assumptions: []string{"`attributes.k != \"v\"` with k absent is a don't-care cell", "random/fuzzed filters are outside this technique and not claimed"}}
